@@ -4342,7 +4342,7 @@ SETTING_FIELDS = {'digits': 'is_digit_converted', 'words': 'is_word_converted', 
 
 @guarded
 def q01s(ctx, lens=(2, 1), settings=(), thresholds=(1, 1)):
-    """Q01s: for a combination of settings, build() does not panic, prints a pattern of the syntax the regex crate accepts with exactly the requested flags and anchors, and the pattern finds every test case in full"""
+    """Q01s: for a combination of settings, build() does not panic, prints a pattern of the syntax the regex crate accepts with exactly the requested flags and anchors, and every test case is in the language of the pattern (a full match with the anchors in place)"""
     settings = tuple(sorted(settings))
     ob = Obligation('Q01s[%s][%s]%s' % (','.join(map(str, lens)), ','.join(settings) or 'default',
                                         '' if tuple(thresholds) == (1, 1) else '[min_repetitions=%d,min_substring_length=%d]' % tuple(thresholds)),
@@ -4444,16 +4444,9 @@ def q01s(ctx, lens=(2, 1), settings=(), thresholds=(1, 1)):
             fd = fold if ci else None
             full = []
             for c in cases:
-                n = len(c)
-                alts, earlier = [], []
-                for w in words:
-                    if len(w) > n or (ea and len(w) != n):
-                        continue
-                    g = RS.word_match(w, c, 0, ctx.oracle, fd)
-                    if len(w) == n:
-                        alts.append(z3.And(g, *[z3.Not(h) for h in earlier]))
-                    else:
-                        earlier.append(g)
+                # C01 asks for a FULL match "with its anchors in place": membership of the test case in the language of the body. Which match a
+                # search returns when an anchor is disabled (alternation order, leftmost-first) is C08's clause and decided there (Q08s / Q08u).
+                alts = [RS.word_match(w, c, 0, ctx.oracle, fd) for w in words if len(w) == len(c)]
                 full.append(z3.Or(*alts) if alts else z3.BoolVal(False))
             bads.append(z3.And(*o2.st.pc, z3.Not(z3.And(*full))))
     ctx.finish(ob, ex, t0)
